@@ -86,8 +86,8 @@ theorem C13_writes {c : WalkCfg} {excl : List Str → Bool → Bool} {pfx : Str}
     (hf : c.toStdout = false) (htree : treeOk listing = true) (hr : r.error = none) (hh : c.headers ≠ [])
     (hp : ∀ p ∈ pagesOf c excl rel listing, (page c (some pfx) (relPath p) p.2.2).isOk = true) :
     (walkDir c excl pfx rel listing r).writes.map (·.path) =
-        r.writes.map (·.path) ++ (layoutOf c excl rel listing).map Item.path ∧
-      ((layoutOf c excl rel listing).map Item.path).Perm
+        r.writes.map (·.path) ++ (layoutOf c excl rel listing).map WItem.path ∧
+      ((layoutOf c excl rel listing).map WItem.path).Perm
         ((indexesOf c excl rel listing).map indexPath ++ (pagesOf c excl rel listing).map pagePath) := by
   rw [walkDir_eq_layout htree, runItems_ok hr (items_ok_of_file hh hp)]
   refine ⟨?_, layout_paths_perm _⟩
@@ -141,9 +141,9 @@ theorem C13_no_descend_without_r {c : WalkCfg} {excl : List Str → Bool → Boo
     split at hit
     · simp at hit
     · rcases List.mem_cons.1 hit with rfl | hit
-      · simp [hpath, Item.path]
+      · simp [hpath, WItem.path]
       · obtain ⟨f, ct, rfl, _⟩ := mem_dirPages.1 hit
-        simp [hpath, Item.path]
+        simp [hpath, WItem.path]
 
 /-- … and without `-r` the layout is just the input directory's own index and pages -/
 theorem C13_layout_without_r {c : WalkCfg} (hrec : c.recursive = false) (excl : List Str → Bool → Bool)
@@ -157,7 +157,7 @@ theorem C13_layout_without_r {c : WalkCfg} (hrec : c.recursive = false) (excl : 
     "exactly one `.rst` per processed file" also holds at the level of files on disk. -/
 theorem C13_paths_nodup {c : WalkCfg} {excl : List Str → Bool → Bool} {rel : List Str}
     {listing : List FsNode} (htree : treeOk listing = true) (hns : NoStemClash c excl rel listing) :
-    ((layoutOf c excl rel listing).map Item.path).Nodup ∧
+    ((layoutOf c excl rel listing).map WItem.path).Nodup ∧
       ((indexesOf c excl rel listing).map indexPath ++ (pagesOf c excl rel listing).map pagePath).Nodup := by
   have h := layoutOf_paths_nodup htree hns
   exact ⟨h, (layout_paths_perm _).nodup_iff.1 h⟩
@@ -200,7 +200,7 @@ theorem C13_content {c : WalkCfg} {excl : List Str → Bool → Bool} {pfx : Str
     simp only [hf, Bool.false_eq_true, if_false, List.mem_append, List.mem_map]
     right
     refine ⟨.page p.1 p.2.1 p.2.2, mem_pagesOf.1 hmem, ?_⟩
-    simp only [Item.write, Item.path, Item.textD, Item.text, C13_page_eq]
+    simp only [WItem.write, WItem.path, WItem.textD, WItem.text, C13_page_eq]
     rw [show joinWith ['/'] (p.1 ++ [p.2.1]) = relPath p from rfl, htext]
     rfl
 
@@ -260,18 +260,18 @@ theorem C13_error_sticky {c : WalkCfg} {r : RunResult} (h : r.error.isSome = tru
     (with `e`) — in stdout mode indexes are not generated and cannot fail — the run ends with `error = some e`,
     having written (resp. printed) exactly the items before `it` and nothing after. -/
 theorem C13_error_stops {c : WalkCfg} {excl : List Str → Bool → Bool} {pfx : Str} {rel : List Str}
-    {listing : List FsNode} {r : RunResult} {pre post : List Item} {it : Item} {e : Err}
+    {listing : List FsNode} {r : RunResult} {pre post : List WItem} {it : WItem} {e : Err}
     (htree : treeOk listing = true) (hr : r.error = none)
     (hsplit : layoutOf c excl rel listing = pre ++ it :: post)
     (hpre : ∀ x ∈ pre, (c.toStdout = false ∨ x.isPage = true) → (x.text c pfx).isOk = true)
     (hact : c.toStdout = false ∨ it.isPage = true) (he : it.text c pfx = .error e) :
     walkDir c excl pfx rel listing r =
-      { writes := r.writes ++ (if c.toStdout then [] else pre.map (Item.write c pfx)),
+      { writes := r.writes ++ (if c.toStdout then [] else pre.map (WItem.write c pfx)),
         stdout := r.stdout ++ (if c.toStdout then
-          ((pre.filterMap Item.page?).map (fun p => pageText c pfx p ++ ['\n', '\n'])).flatten else []),
+          ((pre.filterMap WItem.page?).map (fun p => pageText c pfx p ++ ['\n', '\n'])).flatten else []),
         error := some e } := by
-  have hact' : ∀ x : Item, x.active c = true ↔ (c.toStdout = false ∨ x.isPage = true) := by
-    intro x; simp [Item.active]
+  have hact' : ∀ x : WItem, x.active c = true ↔ (c.toStdout = false ∨ x.isPage = true) := by
+    intro x; simp [WItem.active]
   rw [walkDir_eq_layout htree, hsplit,
     runItems_err hr (fun x hx ha => hpre x hx ((hact' x).1 ha)) ((hact' it).2 hact) he, printed_flatten]
 
@@ -343,7 +343,7 @@ example : walkDir {} (fun _ _ => false) (lit "P") [] exErrTree {} =
   apply RunResult.ext' <;> decide +kernel
 
 -- distinct paths: the example tree has no stem collision
-example : ((layoutOf exCfg exExcl [] exTree).map Item.path).Nodup :=
+example : ((layoutOf exCfg exExcl [] exTree).map WItem.path).Nodup :=
   (C13_paths_nodup ex_treeOk ex_noStemClash).1
 
 -- the guard is needed: with auto-exclusion on and `-r`, a top directory without `.cmake` file is walked through
@@ -357,10 +357,10 @@ example : indexesOf exCfg (fun _ _ => false) [] [.file (lit "readme.txt") [], .d
 
 `a.cmake` and `a.CMake` both map to `a.rst`; `index.cmake` maps to `index.rst`, the path of the directory's index. -/
 
-example : ¬ ((layoutOf {} (fun _ _ => false) [] [.file (lit "a.cmake") [], .file (lit "a.CMake") []]).map Item.path).Nodup := by
+example : ¬ ((layoutOf {} (fun _ _ => false) [] [.file (lit "a.cmake") [], .file (lit "a.CMake") []]).map WItem.path).Nodup := by
   simp only [layoutOf, dirItems, subsLayout, nodeLayout, sortStrs_eq_isort]
   decide
-example : ¬ ((layoutOf {} (fun _ _ => false) [] [.file (lit "index.cmake") []]).map Item.path).Nodup := by
+example : ¬ ((layoutOf {} (fun _ _ => false) [] [.file (lit "index.cmake") []]).map WItem.path).Nodup := by
   simp only [layoutOf, dirItems, subsLayout, nodeLayout, sortStrs_eq_isort]
   decide
 
